@@ -338,6 +338,78 @@ class _FakeRandom:
         return perm
 
 
+def _reply_rewritten_atomically(env, bs, client, uniq, req_dir, reply):
+    """The network service answers every request it still finds when it restarts (and whenever a request is
+    modified): the real `ResourceService._on_created` rewrites reply.yml of a container that may be finishing
+    right now.  Under a line tracer, at every line of `_base_service.py` the rewrite executes, the finishing
+    side's read (the real `ResourceServiceClient.get`) must return the complete reply - an empty or partial
+    one reads as "the network is already freed" and the clean-up is skipped."""
+    import sys as _sys
+    import yaml as _yaml
+
+    class _Rs(bs.ResourceService):
+        __slots__ = ()
+
+        def __init__(self):                                 # pylint: disable=super-init-not-called
+            pass
+
+        def _run(self, impl, watchdog_lease):
+            raise NotImplementedError
+
+        def clt_update_request(self, req_id):
+            raise NotImplementedError
+
+        def status(self, timeout=30):
+            raise NotImplementedError
+
+    class _Impl(object):
+        PAYLOAD_SCHEMA = ()
+
+        @staticmethod
+        def on_create_request(_rid, _data):
+            return dict(reply)
+    rs = _Rs()
+    object.__setattr__(rs, '_rsrc_dir', os.path.dirname(req_dir))
+    with open(os.path.join(req_dir, bs.REQ_FILE), 'w') as f:
+        _yaml.safe_dump({'environment': 'dev'}, f)
+    seen = []
+    busy = [False]
+
+    def local(frame, event, _arg):
+        if event == 'line' and not busy[0]:
+            busy[0] = True
+            try:
+                _sys.settrace(None)
+                try:
+                    got = client.get(uniq)
+                except Exception as exc:        # pylint: disable=broad-except
+                    got = repr(exc)
+                seen.append((frame.f_lineno, got))
+            finally:
+                _sys.settrace(tracer)
+                busy[0] = False
+        return local
+
+    def tracer(frame, event, _arg):
+        if event == 'call' and frame.f_code.co_filename.endswith('_base_service.py') \
+                and frame.f_code.co_name == '_on_created':
+            return local
+        return None
+    old = _sys.gettrace()
+    with mock.patch.object(bs.utils, 'validate', lambda *_a, **_k: None):
+        _sys.settrace(tracer)
+        try:
+            rs._on_created(_Impl(), req_dir)        # pylint: disable=protected-access
+        finally:
+            _sys.settrace(old)
+    env.stats_reply_traced = getattr(env, 'stats_reply_traced', 0) + 1
+    for lineno, got in seen:
+        if got != reply:
+            env.reply_torn = 'while the service rewrote the reply of %s (line %d of _base_service.py) the ' \
+                             'finishing side read %r instead of %r' % (uniq, lineno, got, reply)
+            break
+
+
 class _NetClient:
     def __init__(self, env, ext):
         self.env = env
@@ -381,6 +453,10 @@ class _NetClient:
             os.makedirs(req)
             with open(os.path.join(req, bs.REP_FILE), 'w') as f:
                 _yaml.safe_dump(dict(r), f)
+        if r is not None:
+            self.env.n_get = getattr(self.env, 'n_get', 0) + 1
+            if self.env.n_get % 3 == 0:
+                _reply_rewritten_atomically(self.env, bs, real, uniq, req, dict(r))
         if r is not None and getattr(self.env, 'reply_fault', False):
             # the reply is there but cannot be read this time (EIO): the finish attempt must fail - the network
             # is NOT "already freed" - and be retried
@@ -864,6 +940,11 @@ def _run_impl(case, root):
             repeated = True
         if man is None:
             return            # nothing was ever saved for this container: `finish` had nothing to load
+        if getattr(env, 'reply_torn', None):
+            hits.append(fw.Hit(clause='reply-read-torn', call_site='ResourceService._on_created', detail=env.reply_torn))
+            env.reply_torn = None
+        if getattr(env, 'stats_reply_traced', 0):
+            run.tags.add('reply-rewrite-traced')
         an = env.net_get[0] if env.net_get else None
         line = ('refinish ' if keep else 'finish ') + tokens(man, spec['pid'], pass_order('u'))
         run.op(line, '%san=%s ptok=1 live=%s %s' % ('' if raised is None else 'RAISED=%s ' % raised,
